@@ -79,6 +79,16 @@ def r1(ctx):
                   "the tuple case handles only one level (elements that are themselves tuples are treated as leaves): "
                   "_map/_flatten/_to_dict/_simplify would disagree on what the leaves of a nested tuple are")
     ctx.floor("C19.R1", n, 5, "recursive traversals of Structured")
+    # every traversal walks the private structure mapping itself (not the public iterator, which unpacks a lone root)
+    for meth, want in (("_flatten", "self._structure.values()"), ("_map", "self._structure.items()"), ("_to_dict", "self._structure.items()")):
+        m = P.func(ST + "." + meth)
+        its = [norm(x.iter) for x in walk_no_nested(m.node) if isinstance(x, ast.For)] + \
+              [norm(g.iter) for x in walk_no_nested(m.node) if isinstance(x, (ast.DictComp, ast.ListComp, ast.GeneratorExp)) for g in x.generators]
+        top = [i for i in its if "self" in i]
+        ctx.look()
+        ctx.check(top == [want], "C19.R1", f"{meth} walks the structure mapping itself, in its key order", m.where, ctx.construct(m, text="iterates structure"),
+                  f"{meth} iterates {top}; expected [{want}] — `for value in self` unpacks a lone iterable root and yields the root first, so leaves and order "
+                  f"no longer match the other traversals")
     map_shape_preserving(ctx, "C19.R1")
     sentinel_discipline(ctx, "C19.R1")
     # _update: later wins, everything prepared
@@ -212,6 +222,15 @@ def r2(ctx):
         ok = bool(v) and isinstance(v[0], ast.IfExp) and norm(v[0].test) == "prepend" and norm(v[0].body) == "[*layers, *self._layers]" and norm(v[0].orelse) == "[*self._layers, *layers]"
         ctx.check(ok, "C19.R2", "prepended layers take priority, appended ones do not", wl.where, ctx.construct(wl, text="prepend order"),
                   f"layer list is `{norm(v[0]) if v else None}`")
+    rets = [r for r in returns_of(wl.node)]
+    nl = [v for n_, v, _ in assignments(wl.node) if n_ == "new_layers"]
+    ok = bool(nl) and isinstance(nl[0], ast.IfExp) and norm(nl[0].test) == "prepend" and norm(nl[0].body) == "[*layers, self]" and norm(nl[0].orelse) == "[self, *layers]" \
+        and any(norm(r.value) == "LayeredMapping(*new_layers, name=name)" for r in rets)
+    ctx.check(ok, "C19.R2", "with_layers (not in place) stacks the new layers around the mapping ITSELF, so its private writes stay visible", wl.where,
+              ctx.construct(wl, text="non-inplace layering"),
+              f"new_layers = `{norm(nl[0]) if nl else None}`; expected [*layers, self] / [self, *layers]: using self._layers drops the receiver's private write layer")
+    ok = any(isinstance(x, ast.If) and norm(x.test) == "not layers" and isinstance(x.body[0], ast.Return) and norm(x.body[0].value) == "self" for x in wl.node.body)
+    ctx.check(ok, "C19.R2", "with_layers without layers returns the mapping unchanged", wl.where, ctx.construct(wl, text="no layers"), "empty layering must return self")
     init = C.methods["__init__"]
     ok = any(norm(s) in ("self._mutations: dict = {}", "self._mutations = {}") for s in init.node.body)
     ctx.check(ok, "C19.R2", "every LayeredMapping owns a fresh private layer", init.where, ctx.construct(init, text="_mutations init"),
@@ -281,6 +300,16 @@ def r4(ctx, rule="C19.R4"):
     t = [norm(s) for s in init.node.body]
     ok = "self.__validate_terms(self.__terms)" in t and "self._reorder()" in t and t.index("self.__validate_terms(self.__terms)") < t.index("self._reorder()")
     ctx.check(ok, rule, "SimpleFormula.__init__ validates and orders its terms", init.where, ctx.construct(init, text="init"), "validate then reorder expected")
+    # sub-formulas built from this one keep its ordering method
+    gi = SF.methods["__getitem__"]
+    ctors = [c for c in ast.walk(gi.node) if isinstance(c, ast.Call) and norm(c.func) in ("self.__class__", "SimpleFormula", "type(self)")]
+    ctx.floor(rule, len(ctors), 1, "sub-formula constructions in __getitem__")
+    for c in ctors:
+        o = kwarg(c, "_ordering")
+        ctx.check(o is not None and norm(o) == "self.ordering", rule, "a slice of a formula keeps the formula's ordering method", gi.module.line(c), ctx.construct(gi, text="slice ordering"),
+                  f"slice is built as `{norm(c)[:80]}`: without `_ordering=self.ordering` a slice of an unordered formula is re-sorted by degree and a 'sort' formula stops sorting")
+    ok = "return self.__terms[key]" in norm(gi.node)
+    ctx.check(ok, rule, "integer indexing returns the stored term", gi.where, ctx.construct(gi, text="index"), "__getitem__ changed shape")
     d = SF.methods["__delitem__"]
     body = [norm(s) for s in d.node.body]
     ctx.check(body == ["del self.__terms[key]"], rule, "__delitem__ only removes (order preserving)", d.where, ctx.construct(d, text="delitem"),
